@@ -59,7 +59,7 @@ def cases(tier, seed):
             # only over the SOME/IP header and the SD header (message filtering, lengths)
             if spec["m"] == "window" and spec["w"] > 2 and spec["pos"] >= 28:
                 continue
-            if spec["m"] == "window" and spec["w"] == 2 and spec["pos"] >= 28 and tier == "quick":
+            if spec["m"] == "window" and spec["w"] == 2 and spec["pos"] >= 28 and (tier == "quick" or spec["pos"] % 2):
                 continue
             if tier == "quick" and dgram == "pair" and spec["m"] != "window":
                 continue
